@@ -56,6 +56,11 @@ func Generate(w io.Writer, filename string, metaData *MetaData, injectors []*Inj
 	if err != nil {
 		return fmt.Errorf("write DO NOT EDIT comment: %w", err)
 	}
+	if metaData.BuildConstraint != "" {
+		if _, err := w.Write([]byte(metaData.BuildConstraint + "\n\n")); err != nil {
+			return fmt.Errorf("write build constraint: %w", err)
+		}
+	}
 
 	// Format and write the generated code
 	err = format.Node(w, token.NewFileSet(), file)
